@@ -157,6 +157,15 @@ def _param_oracle(case, shim, labels):
             return Outcome.fail("supplied_parameter_tensor_rejected", f"{'leaf' if case['leaf'] else 'non-leaf'} tensor for {name} ({case['method']} {case['tpl']}): {type(e).__name__}: {str(e)[:160]}", labels, True)
         if r["notconverged"]:
             return Outcome.inconclusive("scf_not_converged", labels)
+        if case["conv"][0] == 2:
+            # Pulay can converge to a high-energy state that is flagged converged (C04's recorded finding; MNDO PH3 is its original
+            # witness). There the Hellmann-Feynman derivative and a finite difference taken across Pulay runs need not agree (thorough
+            # run, seed 1: d Etot/d U_ss ratio 1.027). Such cases belong to C04: the state is compared with the adaptive solver's.
+            c1 = dict(case, conv=[1])
+            with torch.no_grad():
+                e_ref = float(_evaluate(c1, Z, X, {name: t0.clone()}, ["Etot"], backward=0)["Etot"])
+            if abs(e_ref - float(r["Etot"])) > 1e-6:
+                return Outcome.inconclusive("pulay_other_scf_state", labels)
         y = r[case["output"]]
         try:
             with silence():
@@ -300,6 +309,10 @@ class Geometry(SubCheck):
                     return Outcome.fail("callable_parameters_rejected", f"learned_parameters as a callable of the geometry ({name}, {case['method']} {case['tpl']}): {type(e).__name__}: {str(e)[:160]}", labels, True)
             if bool(torch.as_tensor(es.notconverged).any()):
                 return Outcome.inconclusive("scf_not_converged", labels)
+            if case["conv"][0] == 2:
+                e_ref = float(_evaluate(dict(case, conv=[1]), Z, X, net, ["Etot"], backward=0)["Etot"])
+                if abs(e_ref - float(mol.Etot[0])) > 1e-6:
+                    return Outcome.inconclusive("pulay_other_scf_state", labels)       # C04's recorded finding, see _param_oracle
             F = tonp(mol.force[0])[:nat]
             dvec = _direction({"dseed": case["dseed"] + 17}, 3 * nat).reshape(nat, 3)
             ad = -float((F * dvec).sum())
